@@ -74,6 +74,7 @@ def run(ctx):
     R2 = ctx.rule('C15.R2', 'escape / urlencode / base64 stream filters forward to the util / b64url functions; form widgets write user-controlled text only through escape')
     R3 = ctx.rule('C15.R3', 'urlencode: unreserved bytes verbatim, everything else %hh (lower-case hex, high nibble first); urldecode inverts it for every byte')
     R5 = ctx.rule('C15.R5', 'streaming variants report a failing sink: every stream-buffer write result decides the returned status (documented -1), and the failure flag is read from the object that did the writing')
+    R6 = ctx.rule('C15.R6', 'buffered stream filter (filterbuf<F,N>, N>0) keeps the byte order: bytes reach Filter::convert as the put area [pbase,pptr), and a direct hand-over of caller bytes happens only after the put area was flushed')
     R4 = ctx.rule('C15.R4', 'base64url: 64 distinct URL-safe characters, decode table is the inverse, block codec exact, size formulas exact, invalid length rejected')
 
     # ---------------- R1
@@ -488,7 +489,32 @@ def run(ctx):
                     reports = True
         okq = okq and reports
     ctx.check(okq, R5, 'urlencode(streambuf):failure-observed-on-the-writing-iterator', why, usb.where)
+
+    # ---------------- R6 buffered filter: order of bytes
+    fbs = {}
+    for f in P.fns.values():
+        if f.brecord == 'cppcms::util::filterbuf' and not (f.record or '').rstrip('> ').endswith(', 0'):
+            fbs.setdefault(f.record, []).append(f)
+    ctx.require(len(fbs) >= 2, 'C15.R6: buffered filterbuf instantiations not found in filters.cpp')
+    for rec in sorted(fbs):
+        short = rec.split('::')[-1].split(',')[0]
+        convs = [(f, i) for f in fbs[rec] for i in f.calls() if q.short_of(f.bcallee(i) or f.callee(i) or '') == 'convert']
+        ctx.check(bool(convs), R6, '%s:hands-bytes-to-the-filter' % short, 'no call of Filter::convert', fbs[rec][0].where)
+
+        def is_flush(f, i):
+            a = f.args(i)
+            return len(a) >= 2 and any(q.short_of(f.bcallee(j) or '') == 'pbase' for j in f.calls(a[0])) and any(q.short_of(f.bcallee(j) or '') == 'pptr' for j in f.calls(a[1]))
+        flushers = set(f.id for (f, i) in convs if is_flush(f, i))
+        for k, (f, i) in enumerate(convs):
+            if is_flush(f, i):
+                ctx.check(True, R6, '%s:%s:convert#%d:put-area' % (short, f.short, k), '', f.loc(i))
+                continue
+            pre = [j for j in f.calls() if f.callee(j) in flushers or (f.callee(j) in [x.id for x in fbs[rec]] and any(g.callee(c) in flushers for g in fbs[rec] if g.id == f.callee(j) for c in g.calls()))]
+            ok = any(q.before(f, j, i) for j in pre)
+            ctx.check(ok, R6, '%s:%s:convert#%d:pending-bytes-flushed-first' % (short, f.short, k),
+                      'caller bytes are handed to the filter while earlier bytes may still sit in the put area: output comes out of order', f.loc(i))
     ctx.floor(R5, 7)
+    ctx.floor(R6, 6)
     ctx.floor(R1, 4)
     ctx.floor(R2, 12)
     ctx.floor(R3, 4)
